@@ -75,6 +75,8 @@ class Context:
         self.axioms = []
         self.apps = {}
         self.iroots = {}
+        self.axiom_generators = []
+        self._gen_seen = set()
         self.fork_roots = False
         self.nested_leaves = 0
         self.fork_small_mod = 2
@@ -172,6 +174,13 @@ class Context:
             self.axiom(u)
 
     def instantiate(self):
+        for gen in self.axiom_generators:
+            for f in gen():
+                h = f.hash()
+                if h not in self._gen_seen:
+                    self._gen_seen.add(h)
+                    self.solver.add(f)
+                    self.model = None
         n = sum(len(v) for v in self.apps.values())
         if n == self._inst_done:
             return
@@ -322,6 +331,7 @@ class Context:
         stack = [[]]
         saved = (self.prefix, self.trace, self.pending, self.twosided)
         saved_apps = ({k: list(v) for k, v in self.apps.items()}, set(self._app_keys), dict(self.iroots), self._inst_done)
+        saved_gen = set(self._gen_seen)
         pc_mark, ax_mark = len(self.pc), len(self.axioms)
         try:
             while stack:
@@ -345,6 +355,7 @@ class Context:
                     del self.pc[pc_mark:]
                     del self.axioms[ax_mark:]
                     self.solver.pop()
+                    self._gen_seen = set(saved_gen)
                     self.apps, self._app_keys, self.iroots, self._inst_done = (
                         {k: list(v) for k, v in saved_apps[0].items()}, set(saved_apps[1]), dict(saved_apps[2]), saved_apps[3])
                 stack.extend(self.pending)
@@ -414,7 +425,7 @@ class Context:
                             V.set_context(self)
                     except Exception as e:  # replay itself failed
                         ok, detail = None, f"replay raised {type(e).__name__}: {e}\n{traceback.format_exc(limit=4)}"
-                    rec["replayed"] = ok
+                    rec["replayed"] = None if ok is None else bool(ok)
                     rec["replay_detail"] = detail
                 else:
                     rec["replayed"] = None
